@@ -503,11 +503,20 @@ def rule_python_index(ctx):
     anchor(cls is not None and '__getitem__' in cls.defs, 'Particles.__getitem__')
     n = 0
     bad = {}
-    for meth in ('__getitem__',):
-        fn = cls.defs[meth]
+    # the integer branch may be a method of its own that __getitem__ hands the key to (return self._by_index(key))
+    work = [('__getitem__', cls.defs['__getitem__'], 'key')]
+    for x in ast.walk(cls.defs['__getitem__']):
+        if isinstance(x, ast.Return) and isinstance(x.value, ast.Call) and isinstance(x.value.func, ast.Attribute) \
+                and pyfront._name(x.value.func.value) == 'self' and x.value.func.attr in cls.defs \
+                and len(x.value.args) == 1 and isinstance(x.value.args[0], ast.Name) and x.value.args[0].id == 'key':
+            h = cls.defs[x.value.func.attr]
+            ps = [a.arg for a in h.args.args if a.arg != 'self']
+            if len(ps) == 1:
+                work.append((x.value.func.attr, h, ps[0]))
+    for meth, fn, pname in work:
         for N in (0, 1, 3):
             for key in range(-2 * N - 2, 2 * N + 2):
-                dom = {'key': [key], 'self.sim.N': [N]}
+                dom = {pname: [key], 'self.sim.N': [N]}
                 for env, r in pyeval.paths(fn, dom):
                     # only the integer branch: a path that took an isinstance(key, str/slice/...) test as true is another key type
                     for ln, what, kw, snap in r.events:
